@@ -614,7 +614,17 @@ impl Ctx {
     /// Replays a case of an isolated part (`<label>:<part>`) in a fresh child process.
     pub fn replay_isolated<P: Part>(&mut self, rf: &crate::runner::ReplayFile) -> bool {
         let Some((label, part)) = rf.part.split_once(':') else {
-            return false;
+            // a regression file names the bare part: replay it under every worker build
+            if rf.part != P::NAME {
+                return false;
+            }
+            let mut any = false;
+            for label in ["debug", "release"] {
+                let mut labelled = rf.clone();
+                labelled.part = format!("{label}:{}", P::NAME);
+                any |= self.replay_isolated::<P>(&labelled);
+            }
+            return any;
         };
         if part != P::NAME {
             return false;
